@@ -260,3 +260,51 @@ Proof.
   - exact s_server_binds_when_checking.
   - exists f5_client_view, f5_server_view. repeat split; try reflexivity. intros H. discriminate H.
 Qed.
+
+(* ================================================================ negotiation forgets the first ClientHello *)
+
+(* reset-then-negotiate does not depend on the extension-driven part of the prior state *)
+Theorem negotiate_independent_of_prior_state :
+  forall g s1 s2 hello, n_rest s1 = n_rest s2 ->
+    negotiate_with true g s1 hello = negotiate_with true g s2 hello.
+Proof. intros g s1 s2 hello H. unfold negotiate_with, neg_reset. rewrite H. reflexivity. Qed.
+
+Lemma neg_apply_keeps_rest : forall g hello s, n_rest (fold_left (neg_apply1 g) hello s) = n_rest s.
+Proof.
+  intros g hello. induction hello as [|x l IH]; intros s; [reflexivity|].
+  cbn [fold_left]. rewrite IH. destruct x; reflexivity.
+Qed.
+
+(* whatever the first, cookie-less ClientHello carried (in particular anything ADDED to it in transit):
+   the state the handshake runs with is a function of the second ClientHello and the configuration *)
+Theorem negotiate_forgets_first_hello :
+  forall g s0 ch1 ch1' ch2,
+    server_negotiation_with true g s0 ch1 ch2 = server_negotiation_with true g s0 ch1' ch2.
+Proof.
+  intros g s0 ch1 ch1' ch2. unfold server_negotiation_with.
+  apply negotiate_independent_of_prior_state.
+  unfold negotiate_with. rewrite !neg_apply_keeps_rest. reflexivity.
+Qed.
+
+(* seeded change C04e (reset only before the first ClientHello): a server_name that only the first
+   ClientHello carried survives, the second one does not mention it *)
+Theorem negotiate_without_reset_refuted :
+  exists g s0 ch1 ch1' ch2,
+    server_negotiation_with false g s0 ch1 ch2 <> server_negotiation_with false g s0 ch1' ch2 /\
+    n_sni (server_negotiation_with false g s0 ch1' ch2) = Some 7 /\
+    n_sni (server_negotiation_with true g s0 ch1' ch2) = None.
+Proof.
+  exists (mk_ncfg true 29), (mk_neg false None [] [] 29 0), [XGroups 29], [XGroups 29; XSni 7], [XGroups 29].
+  repeat split. intros H. discriminate H.
+Qed.
+
+Theorem negotiation_reset_as_coded :
+  if server12_resets_inside_negotiation
+  then forall g s0 ch1 ch1' ch2, server_negotiation g s0 ch1 ch2 = server_negotiation g s0 ch1' ch2
+  else exists g s0 ch1 ch1' ch2, server_negotiation g s0 ch1 ch2 <> server_negotiation g s0 ch1' ch2.
+Proof.
+  unfold server_negotiation. destruct server12_resets_inside_negotiation.
+  - exact negotiate_forgets_first_hello.
+  - exists (mk_ncfg true 29), (mk_neg false None [] [] 29 0), [XGroups 29], [XGroups 29; XSni 7], [XGroups 29].
+    intros H. discriminate H.
+Qed.
